@@ -184,7 +184,8 @@ def _seq(mod, bt, v, ch):
     unknown = 0
     pre = []
     if bt.ext:
-        unknown = ch.pick(2, 'unknown_ext')
+        # 1: one unknown addition; 2: two unknown additions, absent then present; 3: present, absent, present
+        unknown = ch.pick(4, 'unknown_ext')
         if unknown:
             ch.features.add('unknown_ext')
         pre.append(any(add_present) or bool(unknown))
@@ -200,7 +201,7 @@ def _seq(mod, bt, v, ch):
             continue
         out += encode(mod, m.type, v[m.name], ch, mt[m.name])
     if bt.ext and (any(add_present) or unknown):
-        bitmap = list(add_present) + ([True] if unknown else [])
+        bitmap = list(add_present) + {0: [], 1: [True], 2: [False, True], 3: [True, False, True]}[unknown]
         bb, pad = _bits_to_bytes(bitmap)
         out += length(len(bb) + 1, ch) + bytes([pad]) + bb
         for a, p in zip(adds, add_present):
@@ -218,4 +219,6 @@ def _seq(mod, bt, v, ch):
             out += length(len(body), ch) + body
         if unknown:
             out += length(3, ch) + b'\x01\x02\x03'
+        if unknown == 3:
+            out += length(2, ch) + b'\x04\x05'
     return out
